@@ -134,10 +134,11 @@ theorem parseStr_fold_eq (d : Char) (s : Str) (st : Csv.St) :
     (fun t => by simp [Csv.run]) (fun t c s => by simp [Csv.run, bind]) s st
 
 theorem parseStr_eq (d : Char) (line : Str) : parseStr line [d] = Csv.parse d line := by
-  unfold parseStr Csv.parse crlf
   have h := parseStr_fold_eq d (rstrip ['\r', '\n'] line) St.init
-  have hi : (⟨([] : Str), [], false, false⟩ : ParseStr.State) = ofStS St.init := rfl
-  rw [hi, h]
+  have hi : ofStS St.init = (⟨([] : Str), [], false, false⟩ : ParseStr.State) := rfl
+  rw [hi] at h
+  -- `simp only` also unfolds the `let`s of the generated text, whatever locals it introduces
+  simp only [parseStr, Csv.parse, crlf, h]
   cases Csv.run d St.init (rstrip ['\r', '\n'] line) with
   | error e => simp [Except.map, bind, Except.bind]
   | ok st => simp [Except.map, bind, Except.bind, ofStS, pure, Except.pure]
@@ -159,10 +160,11 @@ theorem parseBytes_fold_eq (d : Char) (s : Str) (st : Csv.St) :
     (fun t => by simp [Csv.run]) (fun t c s => by simp [Csv.run, bind]) s st
 
 theorem parseBytes_eq (d : Char) (line : Str) : parseBytes line [d] = Csv.parse d line := by
-  unfold parseBytes Csv.parse crlf
   have h := parseBytes_fold_eq d (rstrip ['\r', '\n'] line) St.init
-  have hi : (⟨([] : Str), [], false, false⟩ : ParseBytes.State) = ofStB St.init := rfl
-  rw [hi, h]
+  have hi : ofStB St.init = (⟨([] : Str), [], false, false⟩ : ParseBytes.State) := rfl
+  rw [hi] at h
+  -- `simp only` also unfolds the `let`s of the generated text, whatever locals it introduces
+  simp only [parseBytes, Csv.parse, crlf, h]
   cases Csv.run d St.init (rstrip ['\r', '\n'] line) with
   | error e => simp [Except.map, bind, Except.bind]
   | ok st => simp [Except.map, bind, Except.bind, ofStB, pure, Except.pure]
@@ -172,11 +174,9 @@ theorem parseBytes_eq (d : Char) (line : Str) : parseBytes line [d] = Csv.parse 
 theorem genRow_step_eq (d : Char) (acc f : Str) :
     GenRow.step [d] ⟨acc⟩ f = .ok ⟨acc ++ (encWith (needsQuote d) f ++ [d])⟩ := by
   simp only [GenRow.step, csvgen_isInfix_single, csvgen_startsWith_single, csvgen_replace_single, encWith, needsQuote, quoted]
-  by_cases h : d ∈ f ∨ f.head? = some '"'
-  · by_cases hq : '"' ∈ f
-    · simp [h, hq]
-    · simp [h, hq, csvgen_flatMap_id _ _ _ hq]
-  · simp [h]
+  -- complete case analysis on the three tests the code can make about a field
+  by_cases h1 : d ∈ f <;> by_cases h2 : f.head? = some '"' <;> by_cases hq : '"' ∈ f <;>
+    simp_all [csvgen_flatMap_id]
 
 theorem genRow_fold_eq (d : Char) (row : List Str) : ∀ (acc : Str),
     foldE (GenRow.step [d]) ⟨acc⟩ row = .ok ⟨acc ++ row.flatMap (fun f => encWith (needsQuote d) f ++ [d])⟩ := by
@@ -186,8 +186,6 @@ theorem genRow_fold_eq (d : Char) (row : List Str) : ∀ (acc : Str),
 
 theorem genRow_eq (d : Char) (row : List Str) (eol : Str) :
     genRow row [d] eol = .ok (Csv.gen d row eol) := by
-  unfold genRow Csv.gen
-  rw [genRow_fold_eq]
-  simp only [csvgen_sliceTo_neg_one, List.nil_append]
+  simp only [genRow, Csv.gen, genRow_fold_eq, csvgen_sliceTo_neg_one, List.nil_append]
 
 end N0.CsvGenEq
